@@ -366,6 +366,11 @@ func (r *Run) runPath(w *Worker, it workItem) (more [][]uint64) {
 				want = false // the path continued under an assumption the real code does not meet
 			}
 		}
+		if m.called["time.Now"] && !m.nowObserved {
+			// the path depends on the stubbed clock and the harness did not tie it to nd.NowUnix(): the native
+			// run sees the real clock, so this path is no translator-validation sample
+			want = false
+		}
 		if want {
 			ts := m.flatDraws()
 			nd := len(ts)
